@@ -273,3 +273,8 @@ def st_forms(be, hiN, forms):
 
 FACETS.append(Facet('np/operand-forms', f_forms, strategy=lambda t: st_forms('np', 4, ['pauli', 'monomial', 'poly1']), examples={'quick': 1500, 'thorough': 60000}, shards={'quick': 1, 'thorough': 4}))
 FACETS.append(Facet('torch/operand-forms', f_forms, strategy=lambda t: st_forms('torch', 3, ['pauli', 'poly1']), examples={'quick': 200, 'thorough': 8000}, backend='torch'))
+
+
+from checks import large as _large
+FACETS.append(Facet('np/large-N', _large.f_algebra_large, strategy=lambda t: _large.st_algebra('np', ['product']), examples={'quick': 60, 'thorough': 3000}))
+FACETS.append(Facet('torch/large-N', _large.f_algebra_large, strategy=lambda t: _large.st_algebra('torch', ['product']), examples={'quick': 30, 'thorough': 1000}, backend='torch'))
